@@ -458,6 +458,7 @@ func escape(c string) string {
 }
 
 func (t *Tree) countRules(n *node, ruleReached []bool) {
+	verifPoint(1, "count")
 	switch n.GetType() {
 	case TypeRule:
 		name, id := n.String(), n.GetID()
@@ -484,6 +485,7 @@ func (t *Tree) countRules(n *node, ruleReached []bool) {
 }
 
 func (t *Tree) checkRecursion(n *node, ruleReached []bool) bool {
+	verifPoint(2, "rec")
 	switch n.GetType() {
 	case TypeRule:
 		id := n.GetID()
@@ -672,6 +674,7 @@ func (t *Tree) Compile(file string, args []string, out io.Writer) (err error) {
 	wg := sync.WaitGroup{}
 
 	wg.Go(func() {
+		verifPoint(1, "start")
 		ruleReached := make([]bool, t.RulesCount)
 		for n := range t.Iterator() {
 			if n.GetType() == TypeRule {
@@ -689,6 +692,7 @@ func (t *Tree) Compile(file string, args []string, out io.Writer) (err error) {
 	})
 
 	wg.Go(func() {
+		verifPoint(2, "start")
 		ruleReached := make([]bool, t.RulesCount)
 		for n := range t.Iterator() {
 			if n.GetType() == TypeRule {
@@ -698,6 +702,7 @@ func (t *Tree) Compile(file string, args []string, out io.Writer) (err error) {
 	})
 
 	wg.Wait()
+	verifJoin()
 
 	if t._switch {
 		var optimizeAlternates func(node *node) (consumes bool, s *set.Set)
